@@ -389,6 +389,10 @@ impl Ctx {
         self.text_cache.insert(text.to_owned(), r.clone());
         r
     }
+    /// the level the model picks for the long form (None: not the long form)
+    fn level(&mut self, text: &str) -> Option<usize> {
+        self.model.ask(&format!("c18.level {}", hex(text.as_bytes()))).parse().ok()
+    }
     fn model_view(&mut self, case: &Case) -> Option<Result<FileView, String>> {
         let req = match case {
             Case::Append { text, loc, src } => format!(
@@ -837,8 +841,35 @@ fn judge(ctx: &mut Ctx, case: &Case, witness_mode: bool) -> Outcome {
                     format!("real output {:?} does not contain the model's comment {:?}", out, show(&ct)),
                 ));
             }
+            // --- the level of the long form, on the empty file (where the output is the comment itself):
+            // the model's level against the real one (flagged even when the output still parses), and,
+            // independently of the model, the real closer must not occur anywhere in the text
+            let mut level_fail: Option<String> = None;
+            if src.is_empty() && !ct.is_empty() {
+                let ob = out.as_bytes();
+                let real_level: Option<usize> = if ob.starts_with(b"--[") {
+                    let k = ob[3..].iter().take_while(|b| **b == b'=').count();
+                    if ob.get(3 + k) == Some(&b'[') && form == "true" { Some(k) } else { None }
+                } else {
+                    None
+                };
+                let model_level: Option<usize> = ctx.level(text);
+                o.hist("append_level", match real_level { None => "single-line form".to_owned(), Some(k) if k >= 4 => "level >= 4".to_owned(), Some(k) => format!("level {}", k) });
+                if real_level != model_level && corr_fail.is_none() {
+                    corr_fail = Some(("level".to_owned(), format!("real long-comment level {:?}, model {:?} (output {:?})", real_level, model_level, out)));
+                }
+                if let Some(k) = real_level {
+                    let closer: Vec<u8> = std::iter::once(b']').chain(std::iter::repeat(b'=').take(k)).chain(std::iter::once(b']')).collect();
+                    if contains(text.as_bytes(), &closer) {
+                        level_fail = Some(format!("the comment is wrapped at level {} but the text contains {:?}: the comment ends inside the text (output {:?})", k, show(&closer), out));
+                    }
+                }
+            }
             // --- oracle
-            let fails = oracle(ctx, case, &base, &out, None);
+            let mut fails = oracle(ctx, case, &base, &out, None);
+            if let Some(w) = level_fail {
+                fails.push(("closer_in_text".to_owned(), w));
+            }
             o.oracle_fails = fails.iter().map(|f| f.0.clone()).collect();
             let lo = ctx.lex(&out);
             for (name, what) in &fails {
@@ -966,12 +997,13 @@ fn judge(ctx: &mut Ctx, case: &Case, witness_mode: bool) -> Outcome {
             let spaces = rule.has_spaces();
             // (F27 is fixed: line comments such as `--[abc[ x` are no longer excused)
             // (F30 is fixed too: a line comment directly before `...` is no longer excused)
-            let f27 = spaces && f29_trigger(&lbase);
+            // (F29 is fixed as well, /repo 3880cd4: a `-` directly before a comment is only counted, not excused)
+            let f27 = false;
             if spaces {
                 o.hist(
                     "remove_spaces_region",
                     if f29_trigger(&lbase) {
-                        "`-` directly before a comment (F29)"
+                        "`-` directly before a comment (was F29: now checked)"
                     } else {
                         "inside"
                     },
@@ -1135,6 +1167,52 @@ fn all_texts(max_len: usize) -> Vec<String> {
         layer = next;
     }
     out
+}
+
+/// every text up to `max_len` over `alphabet` (the empty text excluded)
+fn texts_over(alphabet: &[char], max_len: usize) -> Vec<String> {
+    let mut out = Vec::new();
+    let mut layer = vec![String::new()];
+    for _ in 0..max_len {
+        let mut next = Vec::with_capacity(layer.len() * alphabet.len());
+        for s in &layer {
+            for c in alphabet {
+                let mut t = s.clone();
+                t.push(*c);
+                next.push(t);
+            }
+        }
+        out.extend(next.iter().cloned());
+        layer = next;
+    }
+    out
+}
+
+/// The bracket family: what decides the level of the long form and whether the comment can end early.
+/// Closers of different levels that share a `]` (`]]=]`, `]=]]`, `]==]=]]` …) need five or more characters
+/// together with the LF / CR / leading long bracket that selects the long form.
+fn bracket_texts() -> Vec<String> {
+    let mut v = texts_over(&[']', '=', '[', '\n'], 6);
+    v.extend(texts_over(&[']', '=', '\r'], 5));
+    v.extend(texts_over(&[']', '=', '['], 7).into_iter().filter(|t| t.starts_with("[[") || t.starts_with("[=[") || t.starts_with("[==[")));
+    v.sort();
+    v.dedup();
+    v
+}
+
+/// overlapping closers of different levels, in every way the long form is selected
+fn overlapping_closer_texts() -> Vec<String> {
+    let cores = [
+        "]]=]", "]=]]", "]]=]]", "]=]]=]", "]==]=]]", "]]=]==]", "]=]==]]", "]]==]=]", "]==]]=]", "]=]]]=]", "]]=]=]]",
+        "]]=]==]===]", "]===]==]=]]", "x]]=]y", "]] ]=]]", "]]=] ]]", "]=]=]]",
+    ];
+    let mut v = Vec::new();
+    for c in cores {
+        for (pre, post) in [("\n", ""), ("", "\n"), ("\r", ""), ("", "\r"), ("\r\n", ""), ("a\n", "b"), ("[[", ""), ("[=[", ""), ("[==[ ", ""), ("[[", "\n"), ("\n", "\n")] {
+            v.push(format!("{}{}{}", pre, c, post));
+        }
+    }
+    v
 }
 
 /// the property's list
@@ -1940,6 +2018,21 @@ pub fn run(report: &mut Report, replay: Option<&str>) {
     let full = all_texts(4);
     let mut texts_all_files: Vec<String> = if thorough { full.clone() } else { all_texts(3) };
     texts_all_files.extend(special_texts());
+    texts_all_files.extend(overlapping_closer_texts());
+    // the bracket family, exhaustive, on an empty and a non-empty file
+    let brackets = bracket_texts();
+    report.count("bracket_family_texts", brackets.len() as u64);
+    for t in &brackets {
+        if t.chars().count() <= 4 && t.chars().all(|c| ALPHABET.contains(&c)) {
+            continue; // already in the exhaustive block below
+        }
+        for loc in [Loc::Start, Loc::End] {
+            for f in ["", "print(1)\n"] {
+                cases.push(Case::Append { text: t.clone(), loc, src: f.to_owned() });
+            }
+        }
+    }
+    report.exhaustive.insert("append texts up to length 6 over {] = [ LF}, up to length 5 over {] = CR}, up to length 7 over {] = [} starting with a long bracket x {start,end} x {empty, non-empty file}".into(), true);
     for t in &full {
         for loc in [Loc::Start, Loc::End] {
             for f in ["", "print(1)\n"] {
